@@ -36,6 +36,7 @@ def showErr : Err → String
   | .badKey => "bad-key"
   | .dbError => "db-error"
   | .noCoin => "no-coin"
+  | .commitFail => "commit-failed"
 
 def showRow (r : Row) : String := s!"{r.name}:{r.key}:{r.ext}:{r.int}"
 
@@ -66,6 +67,14 @@ def addU (us : List (Scope × Addr)) (sc : Scope) (ads : List Addr) : List (Scop
 
 def addName (ns : List Nat) (n : Nat) : List Nat := if ns.contains n then ns else ns ++ [n]
 
+/-- optional `cf=<0|1>` flag -/
+def cf? (s : Option String) : Option Bool :=
+  match s with
+  | none => some false
+  | some "0" => some false
+  | some "1" => some true
+  | _ => none
+
 def bool? (s : Option String) : Option Bool :=
   match s with
   | some "0" => some false
@@ -75,6 +84,15 @@ def bool? (s : Option String) : Option Bool :=
 /-- run one model op; `sc` = scope whose address universe the result's addresses join; returns new state + text -/
 def exec (st : St) (sc : Scope) (op : Op) (names : List Nat) : St × String :=
   let (s', r) := step st.s op
+  -- the address an issuing request whose commit failed had issued inside its transaction (the harness adds it to
+  -- the address universe although the caller only saw the error)
+  let lost : List Addr :=
+    match r, op with
+    | .err .commitFail, .newAddr sc a internal _ =>
+      match ask st.s.disk st.s.mem (.next sc a internal) with | .addr ad => [ad] | _ => []
+    | .err .commitFail, .createTx sc a .. =>
+      match ask st.s.disk st.s.mem (.next sc a true) with | .addr ad => [ad] | _ => []
+    | _, _ => []
   let (txt, ads) : String × List Addr :=
     match r, op with
     | .ok, _ => ("ok", [])
@@ -87,7 +105,7 @@ def exec (st : St) (sc : Scope) (op : Op) (names : List Nat) : St × String :=
       (s!"ok acct={a} props={showRow row} ext={joinWith "," (ext.map showAddr)} int={joinWith "," (int.map showAddr)}",
        ext ++ int)
     | .imported a row _ _, _ => (s!"ok acct={a} props={showRow row}", [])
-  let st' : St := { s := s', names := names, us := addU st.us sc ads }
+  let st' : St := { s := s', names := names, us := addU st.us sc (ads ++ lost) }
   (st', txt ++ " " ++ diskDigest st')
 
 def fresh : St := { s := init, names := [1], us := [] }
@@ -107,18 +125,21 @@ def step' (st : Option St) (line : String) : Option St × String :=
       let a? := (kv rest "a").bind String.toNat?
       let nm? := (kv rest "name").bind String.toNat?
       let wrap (r : St × String) : Option St × String := (some r.1, r.2)
+      match cf? (kv rest "cf") with
+      | none => (some st, "bad-op")
+      | some cf =>
       match op with
       | "newaddr" | "newchange" | "curaddr" | "fund" =>
         match sc?, a? with
         | some sc, some a =>
-          let mop : Op := if op == "newaddr" then .newAddr sc a false else if op == "newchange" then .newAddr sc a true
+          let mop : Op := if op == "newaddr" then .newAddr sc a false cf else if op == "newchange" then .newAddr sc a true cf
             else if op == "curaddr" then .curAddr sc a else .fund sc a
           wrap (exec st sc mop st.names)
         | _, _ => (some st, "bad-op")
       | "createtx" =>
         match sc?, a?, bool? (kv rest "dry"), kv rest "amt", bool? (kv rest "nf") with
         | some sc, some a, some dry, some amt, some nf =>
-          if amt == "small" || amt == "huge" then wrap (exec st sc (.createTx sc a dry (amt == "huge") nf) st.names)
+          if amt == "small" || amt == "huge" then wrap (exec st sc (.createTx sc a dry (amt == "huge") nf cf) st.names)
           else (some st, "bad-op")
         | _, _, _, _, _ => (some st, "bad-op")
       | "fundpsbt" =>
@@ -140,12 +161,12 @@ def step' (st : Option St) (line : String) : Option St × String :=
             | some v => match v.toNat? with | some n => if n ≤ 8 then some n else none | none => none
             | none => none
           match key?, n? with
-          | some key, some n => wrap (exec st sc (.importAcct (op == "importdry") sc nm key n) (addName st.names nm))
+          | some key, some n => wrap (exec st sc (.importAcct (op == "importdry") sc nm key n (op == "import" && cf)) (addName st.names nm))
           | _, _ => (some st, "bad-op")
         | _, _, _ => (some st, "bad-op")
       | "rename" =>
         match sc?, a?, nm? with
-        | some sc, some a, some nm => wrap (exec st sc (.rename sc a nm) (addName st.names nm))
+        | some sc, some a, some nm => wrap (exec st sc (.rename sc a nm cf) (addName st.names nm))
         | _, _, _ => (some st, "bad-op")
       | "newacct" =>
         match sc?, nm? with
